@@ -370,7 +370,7 @@ class Seq(Family):
             yield [ND, nc, ops]
         # exhaustive: every sequence of exactly L core ops (all shorter ones are its prefixes and
         # are checked through the per-step snapshots), modulo dataset symmetry
-        L = 5 if tier == "quick" else 6
+        L = 5 if tier == "quick" else 7
         for ops in sequences(CORE, L):
             if _canonical(ops):
                 yield [ND, nc, ops]
@@ -400,7 +400,7 @@ class SeqRandom(Seq):
 
     def cases(self, tier, rng):
         nc = self.colors
-        n_short, n_long = (6000, 600) if tier == "quick" else (150000, 15000)
+        n_short, n_long = (9000, 900) if tier == "quick" else (150000, 15000)
         for _ in range(n_short):
             yield [ND, nc, random_seq(rng, rng.randint(3, 10))]
         for _ in range(n_long):
@@ -469,8 +469,7 @@ for _cls in (Seq, SeqRandom):
     _cls.shrink = lambda self, case: _shrink(case)
     _cls.line = lambda self, case, pyout: __import__("harness.core", fromlist=["sx"]).sx(["seq", case, pyout])
     _cls.nontrivial = lambda self, case, po: any(op[0] == 'ng' for op in case[2]) and any(op[0] in ('app', 'ext', 'seti', 'mrg') for op in case[2])
-    _cls.signature = lambda self, case, po, res: {"construct": "+".join(sorted(_features(case[2]))) or "plain",
-                                                  "len": len(case[2])}
+    _cls.signature = lambda self, case, po, res: {"construct": "+".join(sorted(_features(case[2]))) or "plain"}
 
 
 PROP = Property(
